@@ -20,7 +20,12 @@ void rp_reg_harness(const char* name, void (*fn)(void));
 #define HARNESS(name) void name(void); __attribute__((constructor)) static void rpregh_##name(void) { rp_reg_harness(#name, name); } void name(void)
 #define P(c, msg) do { if (!(c)) { printf("REPRODUCED: %s\n", msg); fflush(stdout); exit(1); } } while (0)
 #define ASSUME(c) do { if (!(c)) { printf("replay: input violates harness assumption %s\n", #c); fflush(stdout); exit(0); } } while (0)
+#ifdef WITNESS
+/* native run of a witness input (translation validation at one concrete point per harness): the witness condition must be reached on the real build too */
+#define WIT(c) do { if (c) { printf("WITNESS-NATIVE reached\n"); fflush(stdout); exit(3); } } while (0)
+#else
 #define WIT(c) ((void)0)
+#endif
 #define PATH_END() exit(0)
 extern unsigned long long irc_alloc_max;   /* defined by the replay build of the shim (operator new meter) */
 #else
